@@ -2,6 +2,10 @@ import Ivg.Gen.Tie.Code.Base
 import Ivg.Gen.Tie.Code.Clamp
 import Ivg.Gen.Code.P_render
 import Ivg.Model.Gradient
+import Ivg.Gen.Tie.Code.Color
+import Ivg.Gen.Tie.Code.Ranges
+import Ivg.Gen.Tie.Code.RenderRegs
+import Ivg.Model.Renderer
 /-!
 # Tie: `(*Gradient).At` of `render/gradient.go` (the colour of one pixel) as TRANSLATED from the Go source = the
 model's `Grad.Gradient.at` of `Ivg/Model/Gradient.lean` at (float32, float64), for all inputs.
@@ -257,5 +261,297 @@ theorem gradient_At_code_tie_fits (fuel : Nat) (g : Gradient F64) (x y : Int) (h
     rgba64To (render_Gradient_At fuel g.shape g.spread (gradAff3Of g.pix2Grad) (g.ranges.map rangeOf)
       (rgba64Of g.first) (rgba64Of g.last) x y) = g.at (α := F32) x y := by
   rw [gradient_At_code_tie fuel g x y hf, rgba64To_rgba64Of _ (gradient_at_fits g x y h1 h2)]
+
+/-! ## `(*Renderer).initGradient` of render/render.go
+
+The stop-collecting loop (`render_Renderer_initGradient.loop3_1`; captured: the transform, `cReg`, `nReg` and the five
+decoded gradient parameters; state: the previous offset, the index, `z.stops`, `z.gradient`), the pixel-to-gradient
+matrix and the call of `Gradient.Init`, against the model's `collectStops` / `Renderer.initGradient`
+(`Ivg/Model/Renderer.lean`) at (float32, float64). -/
+section InitGradient
+open Ivg.Ren
+
+/-- the Go `Gradient` value of a model gradient -/
+def gradientOf (g : Gradient F64) : render_Gradient :=
+  ⟨g.shape, g.spread, gradAff3Of g.pix2Grad, g.ranges.map rangeOf, Ivg.Gen.Tie.rgba64Of g.first,
+   Ivg.Gen.Tie.rgba64Of g.last⟩
+
+/-- the pixel-to-gradient matrix `initGradient` builds from six number registers and the renderer's transform -/
+def initMatrix (z : Renderer F32 F64) (nBase : UInt8) : Grad.Aff3 F64 :=
+  let one : F64 := Arith.ofInt 1
+  let invZSX := one / Wide.widen z.scaleX
+  let invZSY := one / Wide.widen z.scaleY
+  let zBX : F64 := Wide.widen z.biasX
+  let zBY : F64 := Wide.widen z.biasY
+  let a : F64 := Wide.widen (z.nReg.get6 (nBase - 6))
+  let b : F64 := Wide.widen (z.nReg.get6 (nBase - 5))
+  let c : F64 := Wide.widen (z.nReg.get6 (nBase - 4))
+  let d : F64 := Wide.widen (z.nReg.get6 (nBase - 3))
+  let e : F64 := Wide.widen (z.nReg.get6 (nBase - 2))
+  let f : F64 := Wide.widen (z.nReg.get6 (nBase - 1))
+  ⟨a * invZSX, b * invZSY, c - a * zBX - b * zBY, d * invZSX, e * invZSY, f - d * zBX - e * zBY⟩
+
+tolerant
+theorem initGradient_eq (z : Renderer F32 F64) (rgba : RGBA) :
+    z.initGradient rgba =
+      match collectStops (β := F64) z.cReg z.nReg (decodeGradient rgba).cBase (decodeGradient rgba).nBase
+          (decodeGradient rgba).nStops.toNat 0 zeroA true with
+      | none => none
+      | some stops =>
+        if (Gradient.init (decodeGradient rgba).shape (decodeGradient rgba).spread
+              (initMatrix z (decodeGradient rgba).nBase) stops).2
+        then some (Gradient.init (decodeGradient rgba).shape (decodeGradient rgba).spread
+              (initMatrix z (decodeGradient rgba).nBase) stops).1
+        else none := by
+  unfold Renderer.initGradient
+  simp only []
+  generalize collectStops (β := F64) z.cReg z.nReg (decodeGradient rgba).cBase (decodeGradient rgba).nBase
+          (decodeGradient rgba).nStops.toNat 0 zeroA true = cs
+  cases cs <;> rfl
+
+tolerant
+/-- `0 ≤ v` (so `v` is not a NaN) implies `-Inf < v` -/
+theorem negInf_lt_of_zero_le (v : F32) (h : F32.le ⟨0⟩ v = true) : F32.lt ⟨0xff800000⟩ v = true := by
+  have h0 : Num.toOrd .f32 (F32.nb ⟨0⟩) = some 0 := by decide
+  have h1 : Num.toOrd .f32 (F32.nb ⟨0xff800000⟩) = some (-2139095040) := by decide
+  unfold F32.le Num.le at h
+  unfold F32.lt Num.lt
+  rw [h0] at h
+  rw [h1]
+  cases hv : Num.toOrd .f32 v.nb with
+  | none => rw [hv] at h; simp at h
+  | some y =>
+    rw [hv] at h
+    simp only [decide_eq_true_eq] at h ⊢
+    omega
+
+tolerant
+theorem u8_mul257 (c : UInt8) : (Go.cvt_u8_u16 c * (257 : UInt16)).toNat = c.toNat * 0x101 := by
+  have := c.toNat_lt
+  simp only [Go.cvt_u8_u16, UInt16.toNat_mul, UInt8.toNat_toUInt16]
+  simp
+  omega
+
+
+/-- the Go stop `initGradient` stores for the colour `c` and the offset `v` -/
+def initStop (c : RGBA) (v : F32) : render_Stop :=
+  ⟨Go.cvt_f32_f64 v, ⟨Go.cvt_u8_u16 c.r * 257, Go.cvt_u8_u16 c.g * 257, Go.cvt_u8_u16 c.b * 257,
+    Go.cvt_u8_u16 c.a * 257⟩⟩
+
+tolerant
+theorem stopTo_initStop (c : RGBA) (v : F32) :
+    stopTo (initStop c v) = (⟨Wide.widen v, Ren.rgba64Of c⟩ : Stop F64) := by
+  simp only [stopTo, initStop, rgba64To, u8_mul257, Ren.rgba64Of]
+  rfl
+
+tolerant
+theorem get6_palOf (p : Palette) (u : UInt8) : Regs.get6 (palOf p) u = rgbaOf (Regs.get6 p u) := by
+  simp [Regs.get6, palOf]
+
+tolerant
+theorem take_arrSet (m : Vector render_Stop 64) (i : Nat) (hi : i < 64) (x : render_Stop) :
+    (Go.arrSet m i x).toList.take (i + 1) = m.toList.take i ++ [x] := by
+  have hl : (List.take i m.toList).length ≤ i := by simp; omega
+  simp only [Go.arrSet, Vector.toList_setIfInBounds, List.take_add_one]
+  simp [List.take_set, hi, List.set_eq_of_length_le hl]
+
+
+/-- the model matrix of a Go `[6]float64` -/
+def gradAff3To (M : Vector F64 6) : Grad.Aff3 F64 := ⟨M[0], M[1], M[2], M[3], M[4], M[5]⟩
+
+tolerant
+theorem gradAff3Of_gradAff3To (M : Vector F64 6) : gradAff3Of (gradAff3To M) = M := by
+  ext j hj
+  match j, hj with
+  | 0, _ | 1, _ | 2, _ | 3, _ | 4, _ | 5, _ => rfl
+
+tolerant
+theorem gradient_Init_code_tie' (fuel : Nat) (gRanges : List render_Range) (shape spread : UInt8) (M : Vector F64 6)
+    (stops : List render_Stop) (hf : stops.length ≤ fuel) :
+    render_Gradient_Init fuel gRanges shape spread M stops =
+      (let r := Gradient.init shape spread (gradAff3To M) (stops.map stopTo)
+       (r.2, r.1.shape, r.1.spread, M, r.1.ranges.map rangeOf, Ivg.Gen.Tie.rgba64Of r.1.first,
+        Ivg.Gen.Tie.rgba64Of r.1.last)) := by
+  have h := gradient_Init_code_tie fuel gRanges shape spread (gradAff3To M) stops hf
+  rw [gradAff3Of_gradAff3To] at h
+  rw [h]
+  simp only [Gradient.init, gradAff3Of_gradAff3To]
+
+
+tolerant
+/-- the `Aff3` literal of render.go `initGradient` is the model's matrix -/
+theorem initMatrix_code (z : Renderer F32 F64) (nBase : UInt8) :
+    (#v[Go.cvt_f32_f64 (Regs.get6 z.nReg (nBase - 6)) * ((⟨0x3ff0000000000000⟩ : F64) / Go.cvt_f32_f64 z.scaleX),
+        Go.cvt_f32_f64 (Regs.get6 z.nReg (nBase - 5)) * ((⟨0x3ff0000000000000⟩ : F64) / Go.cvt_f32_f64 z.scaleY),
+        Go.cvt_f32_f64 (Regs.get6 z.nReg (nBase - 4)) -
+          Go.cvt_f32_f64 (Regs.get6 z.nReg (nBase - 6)) * Go.cvt_f32_f64 z.biasX -
+          Go.cvt_f32_f64 (Regs.get6 z.nReg (nBase - 5)) * Go.cvt_f32_f64 z.biasY,
+        Go.cvt_f32_f64 (Regs.get6 z.nReg (nBase - 3)) * ((⟨0x3ff0000000000000⟩ : F64) / Go.cvt_f32_f64 z.scaleX),
+        Go.cvt_f32_f64 (Regs.get6 z.nReg (nBase - 2)) * ((⟨0x3ff0000000000000⟩ : F64) / Go.cvt_f32_f64 z.scaleY),
+        Go.cvt_f32_f64 (Regs.get6 z.nReg (nBase - 1)) -
+          Go.cvt_f32_f64 (Regs.get6 z.nReg (nBase - 3)) * Go.cvt_f32_f64 z.biasX -
+          Go.cvt_f32_f64 (Regs.get6 z.nReg (nBase - 2)) * Go.cvt_f32_f64 z.biasY] : Vector F64 6)
+      = gradAff3Of (initMatrix z nBase) := rfl
+
+tolerant
+/-- leaving the loop of `initGradient` (index = `nStops`): the matrix, then `Gradient.Init` on the collected stops
+    (which gets the REMAINING fuel `k`, hence `len(stops) ≤ k`) -/
+theorem initGradient_loop3_1_exit (z : Renderer F32 F64) (cBase nBase shape spread nStops : UInt8)
+    (g0 : render_Gradient) (k : Nat) (prevN : F32) (m : Vector render_Stop 64)
+    (hlen : (m.toList.take nStops.toNat).length ≤ k) :
+    render_Renderer_initGradient.loop3_1 z.scaleX z.biasX z.scaleY z.biasY (palOf z.cReg) z.nReg
+        (cBase, nBase, shape, spread, nStops) (k + 1) prevN nStops m g0 =
+      ((Gradient.init shape spread (initMatrix z nBase) ((m.toList.take nStops.toNat).map stopTo)).2,
+       gradientOf (Gradient.init shape spread (initMatrix z nBase) ((m.toList.take nStops.toNat).map stopTo)).1,
+       m) := by
+  unfold render_Renderer_initGradient.loop3_1
+  have hc : ¬ (nStops < nStops) := UInt8.lt_irrefl _
+  have hsl : Go.slice m.toList 0 (Go.idx_u8 nStops) = m.toList.take nStops.toNat := by
+    simp [Go.slice, Go.idx_u8]
+  -- NB: no rewriting INSIDE the array literal before it is taken apart (a rewritten literal carries a cast of its
+  -- size proof, which the kernel then tries to reduce)
+  simp only [hc, decide_false, Bool.false_eq_true, ↓reduceIte, hsl,
+    gradient_Init_code_tie' k g0.Ranges shape spread _ _ hlen, Gradient.init, gradientOf]
+  refine congrArg (fun M => (_, (render_Gradient.mk shape spread M _ _ _), m)) ?_
+  ext j hj
+  match j, hj with
+  | 0, _ | 1, _ | 2, _ | 3, _ | 4, _ | 5, _ =>
+    simp only [gradAff3Of, Vector.getElem_mk, List.getElem_toArray, List.getElem_cons_zero, List.getElem_cons_succ]
+    simp only [arrGet_and63]
+    rfl
+
+tolerant
+/-- the stop-collecting loop of `initGradient` at index `i` with the previous offset `prevN` (`first` stands for
+    `prevN = -Inf`, as in the model's `collectStops`): it fails exactly when `collectStops` does (and then leaves
+    `z.gradient` alone), otherwise it ends in `Gradient.Init` on the stops stored so far followed by the collected ones.
+    Fuel: one unit per remaining stop, one to leave the loop, and `nStops` for `Init`'s own loop. -/
+theorem initGradient_loop3_1 (z : Renderer F32 F64) (cBase nBase shape spread nStops : UInt8)
+    (hN : nStops.toNat ≤ 64) (g0 : render_Gradient) (fuel : Nat) (i : Nat) (hi : i ≤ nStops.toNat)
+    (prevN : F32) (first : Bool) (m : Vector render_Stop 64)
+    (hf : (nStops.toNat - i) + 1 + nStops.toNat ≤ fuel) :
+    (match collectStops (β := F64) z.cReg z.nReg cBase nBase (nStops.toNat - i) (UInt8.ofNat i) prevN first with
+     | none =>
+       (render_Renderer_initGradient.loop3_1 z.scaleX z.biasX z.scaleY z.biasY (palOf z.cReg) z.nReg
+          (cBase, nBase, shape, spread, nStops) fuel (if first then ⟨0xff800000⟩ else prevN) (UInt8.ofNat i) m g0).1
+          = false ∧
+       (render_Renderer_initGradient.loop3_1 z.scaleX z.biasX z.scaleY z.biasY (palOf z.cReg) z.nReg
+          (cBase, nBase, shape, spread, nStops) fuel (if first then ⟨0xff800000⟩ else prevN) (UInt8.ofNat i) m g0).2.1
+          = g0
+     | some rest =>
+       (render_Renderer_initGradient.loop3_1 z.scaleX z.biasX z.scaleY z.biasY (palOf z.cReg) z.nReg
+          (cBase, nBase, shape, spread, nStops) fuel (if first then ⟨0xff800000⟩ else prevN) (UInt8.ofNat i) m g0).1
+          = (Gradient.init shape spread (initMatrix z nBase) ((m.toList.take i).map stopTo ++ rest)).2 ∧
+       (render_Renderer_initGradient.loop3_1 z.scaleX z.biasX z.scaleY z.biasY (palOf z.cReg) z.nReg
+          (cBase, nBase, shape, spread, nStops) fuel (if first then ⟨0xff800000⟩ else prevN) (UInt8.ofNat i) m g0).2.1
+          = gradientOf (Gradient.init shape spread (initMatrix z nBase) ((m.toList.take i).map stopTo ++ rest)).1) := by
+  induction fuel generalizing i prevN first m with
+  | zero => omega
+  | succ k ih =>
+    have hi8 : (UInt8.ofNat i).toNat = i := by
+      have := nStops.toNat_lt
+      simp only [UInt8.toNat_ofNat']; omega
+    by_cases hlt : i < nStops.toNat
+    · unfold render_Renderer_initGradient.loop3_1
+      have hc : UInt8.ofNat i < nStops := by rw [UInt8.lt_iff_toNat_lt, hi8]; exact hlt
+      have hn : nStops.toNat - i = (nStops.toNat - (i + 1)) + 1 := by omega
+      have hnext : UInt8.ofNat i + 1 = UInt8.ofNat (i + 1) := by
+        apply UInt8.toNat_inj.mp
+        have := nStops.toNat_lt
+        simp only [UInt8.toNat_add, hi8, UInt8.toNat_ofNat']; simp
+      rw [hn]
+      have hidx : Go.idx_u8 (UInt8.ofNat i) = i := hi8
+      simp only [hc, decide_true, ↓reduceIte, arrGet_and63, get6_palOf, validAlphaPremulColor_code_tie,
+        hidx, collectStops]
+      generalize hcv : Regs.get6 z.cReg (cBase + UInt8.ofNat i) = c
+      generalize hvv : Regs.get6 z.nReg (nBase + UInt8.ofNat i) = v
+      cases hvp : c.validPremul
+      · simp only [Bool.not_false, ↓reduceIte, Bool.false_eq_true, and_self]
+      · simp only [Bool.not_true, Bool.false_eq_true, ↓reduceIte]
+        have hz : (zeroA ≤ v) ↔ F32.le ⟨0⟩ v = true := by
+          rw [f32_le_iff]; simp only [zeroA, f32_ofInt_zero]
+        have h1 : (v ≤ Arith.ofInt 1) ↔ F32.le v ⟨0x3f800000⟩ = true := by
+          rw [f32_le_iff]; simp only [f32_ofInt_one]
+        simp only [hz, h1]
+        by_cases a : F32.le ⟨0⟩ v = true
+        · by_cases b : F32.le v ⟨0x3f800000⟩ = true
+          · have hpv : (first = true ∨ prevN < v) ↔
+                F32.lt (if first = true then ⟨0xff800000⟩ else prevN) v = true := by
+              cases first
+              · simp [f32_lt_iff]
+              · simp [negInf_lt_of_zero_le v a]
+            simp only [hpv]
+            by_cases cc : F32.lt (if first = true then ⟨0xff800000⟩ else prevN) v = true
+            · simp only [a, b, cc, and_self, not_true_eq_false, or_self, ↓reduceIte, hnext]
+              have hstop : (⟨Go.cvt_f32_f64 v, ⟨Go.cvt_u8_u16 (rgbaOf c).R * 257, Go.cvt_u8_u16 (rgbaOf c).G * 257,
+                  Go.cvt_u8_u16 (rgbaOf c).B * 257, Go.cvt_u8_u16 (rgbaOf c).A * 257⟩⟩ : render_Stop) =
+                  initStop c v := rfl
+              rw [hstop]
+              have ih' := ih (i + 1) (by omega) v false (Go.arrSet m i (initStop c v)) (by omega)
+              simp only [Bool.false_eq_true, ↓reduceIte, take_arrSet m i (by omega), List.map_append, List.map_cons,
+                List.map_nil, stopTo_initStop] at ih'
+              cases hcs : collectStops (β := F64) z.cReg z.nReg cBase nBase (nStops.toNat - (i + 1))
+                  (UInt8.ofNat (i + 1)) v false with
+              | none => rw [hcs] at ih'; exact ih'
+              | some rest =>
+                rw [hcs] at ih'
+                simpa using ih'
+            · simp only [a, b, cc, and_self, not_true_eq_false, not_false_eq_true, or_true, ↓reduceIte,
+                Bool.false_eq_true, and_self]
+          · simp only [a, b, and_false, not_false_eq_true, true_or, ↓reduceIte, Bool.false_eq_true, and_self]
+        · simp only [a, false_and, not_false_eq_true, true_or, ↓reduceIte, Bool.false_eq_true, and_self]
+    · have hiN : i = nStops.toNat := by omega
+      subst hiN
+      have hlen : (m.toList.take nStops.toNat).length ≤ k := by simp; omega
+      rw [UInt8.ofNat_toNat, initGradient_loop3_1_exit z cBase nBase shape spread nStops g0 k _ m hlen]
+      simp only [Nat.sub_self, collectStops, List.append_nil, and_self]
+
+tolerant
+theorem decodeGradient_nStops_le (rgba : RGBA) : (decodeGradient rgba).nStops.toNat ≤ 64 := by
+  have : (decodeGradient rgba).nStops.toNat = rgba.r.toNat % 64 := u8_and63_toNat rgba.r
+  omega
+
+tolerant
+/-- render.go `(*Renderer).initGradient`, for every `fuel ≥ 2·nStops + 1` (`nStops ≤ 63` is decoded from `rgba`), every
+    previous value of `z.gradient` and `z.stops`: the Go result `ok` is `true` exactly when the model's
+    `Renderer.initGradient` returns a gradient, and then the new `z.gradient` is that gradient (`gradientOf`).
+    (When `ok = false` the model keeps no gradient; Go's `z.gradient` may have been overwritten by `Init`.) -/
+theorem renderer_initGradient_code_tie (fuel : Nat) (z : Renderer F32 F64) (g0 : render_Gradient)
+    (stops0 : Vector render_Stop 64) (rgba : RGBA) (hf : 2 * (decodeGradient rgba).nStops.toNat + 1 ≤ fuel) :
+    match z.initGradient rgba with
+    | some g =>
+      (render_Renderer_initGradient fuel z.scaleX z.biasX z.scaleY z.biasY g0 (palOf z.cReg) z.nReg stops0
+        (rgbaOf rgba)).1 = true ∧
+      (render_Renderer_initGradient fuel z.scaleX z.biasX z.scaleY z.biasY g0 (palOf z.cReg) z.nReg stops0
+        (rgbaOf rgba)).2.1 = gradientOf g
+    | none =>
+      (render_Renderer_initGradient fuel z.scaleX z.biasX z.scaleY z.biasY g0 (palOf z.cReg) z.nReg stops0
+        (rgbaOf rgba)).1 = false := by
+  have h := initGradient_loop3_1 z (decodeGradient rgba).cBase (decodeGradient rgba).nBase (decodeGradient rgba).shape
+    (decodeGradient rgba).spread (decodeGradient rgba).nStops (decodeGradient_nStops_le rgba) g0 fuel 0
+    (Nat.zero_le _) zeroA true stops0 (by omega)
+  simp only [↓reduceIte, Nat.sub_zero, List.take_zero, List.map_nil, List.nil_append] at h
+  rw [show UInt8.ofNat 0 = 0 from rfl] at h
+  rw [initGradient_eq]
+  simp only [render_Renderer_initGradient, decodeGradient_code_tie,
+    show G_render_negativeInfinity = (⟨0xff800000⟩ : F32) from rfl]
+  cases hcs : collectStops (β := F64) z.cReg z.nReg (decodeGradient rgba).cBase (decodeGradient rgba).nBase
+      (decodeGradient rgba).nStops.toNat 0 zeroA true with
+  | none =>
+    rw [hcs] at h
+    exact h.1
+  | some stops =>
+    rw [hcs] at h
+    obtain ⟨h1, h2⟩ := h
+    simp only
+    cases hq : (Gradient.init (decodeGradient rgba).shape (decodeGradient rgba).spread
+        (initMatrix z (decodeGradient rgba).nBase) stops).2
+    · rw [hq] at h1
+      simpa using h1
+    · rw [hq] at h1
+      exact ⟨h1, h2⟩
+
+example : 2 * (decodeGradient ⟨3, 0x0a, 0x8a, 0⟩).nStops.toNat + 1 ≤ 7 := by decide
+
+end InitGradient
 
 end Ivg.Gen.Tie
